@@ -330,6 +330,9 @@ pub trait SchemaList {
 impl<S: Into<SchemaRef>> SchemaList for S {
     fn collect(self) -> Vec<SchemaRef> {vec![self.into()]}
 }
+impl SchemaList for Vec<SchemaRef> {
+    fn collect(self) -> Vec<SchemaRef> {self}
+}
 macro_rules! tuple_schemalist {
     ($($S:ident),*) => {
         #[allow(non_snake_case)]
